@@ -804,20 +804,32 @@ def session_classes(hist):
     return cl
 
 
+_POOLS = {}
+
+
+def _written_syms(s):
+    return set(re.findall(r"[a-zA-Z]+", s))
+
+
 def gen_session(rng, pool):
     """one history over 1-3 accepted strings of the pool, their near-identical variants and a
     rejected string; every accepted string is handed out, the result is edited, and the string is
     used again through several entry points; at the end every string is parsed once more and
     every handle is looked at"""
-    good = [s for s, e, _ in pool if e is not None and e != () and len(s) <= 24]
-    bad = [s for s, e, _ in pool if e is None and 0 < len(s) <= 24]
+    key = (id(pool), len(pool))
+    if _POOLS.get("key") != key:        # the three views of the pool are made once per pool
+        _POOLS.update(key=key,
+                      good=[s for s, e, _ in pool if e is not None and e != () and len(s) <= 24],
+                      bad=[s for s, e, _ in pool if e is None and 0 < len(s) <= 24])
+        _POOLS["small"] = [s for s in _POOLS["good"] if not re.search(r"[0-9]{5,}", s)] or ["m/s"]
+    good, bad = _POOLS["good"], _POOLS["bad"]
     # some histories NAME compound units with symbols that their strings use (define_unit is
     # session state of another feature; a string must still read as written, C12-12 class).
     # Such histories use no boundary exponents: a definition is looked at through a product, in
     # which the library's float arithmetic on (1/2)*2^64 would be judged, not the parser.
     with_names = rng.random() < 0.5
     if with_names:
-        good = [s for s in good if not re.search(r"[0-9]{5,}", s)] or ["m/s"]
+        good = _POOLS["small"]
     base = rng.sample(good, min(len(good), rng.randint(1, 3)))
     words = list(base)
     for s in base:
@@ -837,7 +849,7 @@ def gen_session(rng, pool):
         if kind == "parse" and r is not None:
             content[len(hist) - 1] = dict(r)
         if kind in DEFINES and r is not None:
-            used.update(k for k, _ in r)
+            used.update(_written_syms(s))
 
     def name_a_symbol():
         """define_unit(<a symbol of the history's strings>, <another string>): never a cycle (the
@@ -846,9 +858,10 @@ def gen_session(rng, pool):
         if not syms:
             return
         name = rng.choice(syms)
-        cands = [t for t in good if name not in dict(ref_parse(t))]
+        # symbols as WRITTEN (K^0 and K/K mention K although its exponent is 0: still a cycle)
+        cands = [t for t in (rng.choice(good) for _ in range(12)) if name not in _written_syms(t)][:3]
         cands += [t for t in ["kg*m/s^2", "kg*m^2/s^2", "s^-1", "kg/(m*s^2)", "A*s", "m^2"]
-                  if name not in dict(ref_parse(t))]
+                  if name not in _written_syms(t)]
         entry("define-as", rng.choice(cands), name)
 
     def edit(h):
